@@ -88,6 +88,9 @@ pub struct Case {
     pub order_keys: Vec<u16>,
     pub absent_ids: Vec<u32>,
     pub exd_version: u16,
+    /// keys that permute the row index table (empty: ascending row ids)
+    #[serde(default)]
+    pub index_keys: Vec<u16>,
 }
 
 fn row_ids(max_rows: usize) -> BoxedStrategy<Vec<u32>> {
@@ -122,9 +125,9 @@ fn strategy(_: &Ctx) -> BoxedStrategy<Case> {
     (schema_strategy(4), row_ids(8))
         .prop_flat_map(|((schema, sub), ids)| {
             let n = ids.len();
-            (rows_for(schema.columns.clone(), ids, sub), Just(schema), vec(any::<u16>(), n), vec(any::<u32>(), 0..4), any::<u16>())
+            (rows_for(schema.columns.clone(), ids, sub), Just(schema), vec(any::<u16>(), n), vec(any::<u32>(), 0..4), any::<u16>(), prop_oneof![1 => Just(vec![]), 1 => vec(any::<u16>(), n)])
         })
-        .prop_map(|(rows, schema, order_keys, absent_ids, exd_version)| Case { schema, rows, order_keys, absent_ids, exd_version })
+        .prop_map(|(rows, schema, order_keys, absent_ids, exd_version, index_keys)| Case { schema, rows, order_keys, absent_ids, exd_version, index_keys })
         .boxed()
 }
 
@@ -203,7 +206,11 @@ fn physical_order(keys: &[u16]) -> Vec<usize> {
 
 fn prop(c: &Case, ctx: &Ctx) -> PResult {
     let exh_bytes = encode_exh(&c.schema);
-    let exd_bytes = encode_exd(&c.schema, &c.rows, &physical_order(&c.order_keys), c.exd_version);
+    let index_order: Vec<usize> = if c.index_keys.len() == c.rows.len() { physical_order(&c.index_keys) } else { (0..c.rows.len()).collect() };
+    if index_order.windows(2).any(|w| w[0] > w[1]) {
+        ctx.class("row-index-not-ascending");
+    }
+    let exd_bytes = encode_exd_indexed(&c.schema, &c.rows, &physical_order(&c.order_keys), &index_order, c.exd_version);
     let exh = match guard("EXH::from_existing", || EXH::from_existing(&exh_bytes))? {
         Some(e) => e,
         None => return fail("exh-rejected", "EXH::from_existing returned None for a well-formed header"),
